@@ -82,6 +82,12 @@ func (P *Prog) resolveType(pkg *types.Package, text string) (types.Type, error) 
 	if text == "mathint" || text == "Int" {
 		return mathInt, nil
 	}
+	if strings.HasSuffix(text, "Arr") && len(text) > 3 {
+		// unbounded spec array of T: "<T>Arr"
+		if t, err := P.resolveType(pkg, strings.TrimSuffix(text, "Arr")); err == nil {
+			return types.NewArray(t, 1<<40), nil
+		}
+	}
 	if t, ok := basicTypes[text]; ok {
 		return t, nil
 	}
@@ -769,6 +775,36 @@ func (env *Env) elabCall(x ECall) (Val, error) {
 			return Val{T: app("Str", "schr", v.T), GoT: types.Typ[types.String]}, nil
 		}
 		return v, nil
+	case "arr": // contents array of a slice in the current state
+		v, err := env.elab(x.Args[0])
+		if err != nil {
+			return Val{}, err
+		}
+		u, ok := v.GoT.Underlying().(*types.Slice)
+		if !ok {
+			return Val{}, fmt.Errorf("arr() of non-slice")
+		}
+		es := P.sorts.sortOf(u.Elem())
+		if v.Aux != nil {
+			return Val{T: *v.Aux, GoT: types.NewArray(u.Elem(), 1<<40)}, nil
+		}
+		if env.st == nil {
+			return Val{}, fmt.Errorf("arr() without state")
+		}
+		h := env.st.getHeap(P, elemComp(u.Elem()), elemSort(P, u.Elem()))
+		return Val{T: app(fmt.Sprintf("(Array Int %s)", es), "select", h, app("Int", "s_arr", v.T)), GoT: types.NewArray(u.Elem(), 1<<40)}, nil
+	case "off":
+		v, err := env.elab(x.Args[0])
+		if err != nil {
+			return Val{}, err
+		}
+		return Val{T: app("Int", "s_off", v.T), GoT: mathInt}, nil
+	case "pow2":
+		v, err := env.elab(x.Args[0])
+		if err != nil {
+			return Val{}, err
+		}
+		return Val{T: app("Int", "pow2", v.T), GoT: mathInt}, nil
 	case "runeat", "runesz":
 		a, err := env.elab(x.Args[0])
 		if err != nil {
